@@ -3,7 +3,10 @@
 package c10
 
 import (
+	"encoding/json"
 	"fmt"
+	"os"
+	"os/exec"
 	"strings"
 	"sync"
 	"sync/atomic"
@@ -13,13 +16,62 @@ import (
 	"verifharness/common"
 )
 
-var trace []int64
+// one trace entry: a body starts (ID > 0, Args = which of the two objects of its class each
+// argument was), a body ends (ID < 0) or next-method-p answered (Nmp != 0: 1 false, 2 true)
+type tev struct {
+	ID   int64  `json:"id,omitempty"`
+	Args []bool `json:"args,omitempty"`
+	Nmp  int    `json:"nmp,omitempty"`
+}
+
+var trace []tev
+
+// the two objects of each class, by printed form: alternates maps either to the other
+var alternates = map[string]slip.Object{}
+var isAlt = map[string]bool{}
+
+func objKey(o slip.Object) string {
+	if o == nil {
+		return "nil"
+	}
+	return slip.ObjectString(o)
+}
 
 type vtr struct{ slip.Function }
 
+// (vtr id arg...) records the start of body id and which objects it received; (vtr -id) its end
 func (f *vtr) Call(s *slip.Scope, args slip.List, depth int) slip.Object {
 	if n, ok := args[0].(slip.Fixnum); ok {
-		trace = append(trace, int64(n))
+		e := tev{ID: int64(n)}
+		if n > 0 {
+			e.Args = []bool{}
+			for _, a := range args[1:] {
+				e.Args = append(e.Args, isAlt[objKey(a)])
+			}
+		}
+		record(s, e)
+	}
+	return args[0]
+}
+
+type vnp struct{ slip.Function }
+
+// (vnp (next-method-p)) records the answer
+func (f *vnp) Call(s *slip.Scope, args slip.List, depth int) slip.Object {
+	if args[0] == nil {
+		record(s, tev{Nmp: 1})
+	} else {
+		record(s, tev{Nmp: 2})
+	}
+	return args[0]
+}
+
+type valt struct{ slip.Function }
+
+// (valt x) is the other object of x's class
+func (f *valt) Call(s *slip.Scope, args slip.List, depth int) slip.Object {
+	if o, ok := alternates[objKey(args[0])]; ok {
+		return o
 	}
 	return args[0]
 }
@@ -32,24 +84,47 @@ func defineVtr() {
 			f.Self = &f
 			return &f
 		},
-		&slip.FuncDoc{Name: "vtr", Args: []*slip.DocArg{{Name: "id", Type: "fixnum"}}, Return: "fixnum",
+		&slip.FuncDoc{Name: "vtr", Args: []*slip.DocArg{{Name: "id", Type: "fixnum"}, {Name: "&rest"}, {Name: "args"}}, Return: "fixnum",
 			Text: "verification trace"},
+		&slip.UserPkg)
+	slip.Define(
+		func(args slip.List) slip.Object {
+			f := vnp{Function: slip.Function{Name: "vnp", Args: args}}
+			f.Self = &f
+			return &f
+		},
+		&slip.FuncDoc{Name: "vnp", Args: []*slip.DocArg{{Name: "x", Type: "object"}}, Return: "object",
+			Text: "verification trace of next-method-p"},
+		&slip.UserPkg)
+	slip.Define(
+		func(args slip.List) slip.Object {
+			f := valt{Function: slip.Function{Name: "valt", Args: args}}
+			f.Self = &f
+			return &f
+		},
+		&slip.FuncDoc{Name: "valt", Args: []*slip.DocArg{{Name: "x", Type: "object"}}, Return: "object",
+			Text: "the alternate object of the class of x"},
 		&slip.UserPkg)
 }
 
 // slowObj is an argument whose Hierarchy() takes time while slowOn is set: it widens every window
 // between the hierarchy walk of Aux.Call and the use of its result, so that a concurrent defmethod
 // lands inside it.
-type slowObj struct{}
+type slowObj struct{ alt bool }
 
 var slowOn atomic.Bool
 
-func (slowObj) String() string        { return "#<vslow>" }
-func (slowObj) Append(b []byte) []byte { return append(b, "#<vslow>"...) }
-func (slowObj) Simplify() any          { return "#<vslow>" }
+func (o slowObj) String() string {
+	if o.alt {
+		return "#<vslow2>"
+	}
+	return "#<vslow>"
+}
+func (o slowObj) Append(b []byte) []byte { return append(b, o.String()...) }
+func (o slowObj) Simplify() any          { return o.String() }
 func (o slowObj) Equal(other slip.Object) bool {
-	_, ok := other.(slowObj)
-	return ok
+	x, ok := other.(slowObj)
+	return ok && x == o
 }
 func (slowObj) Hierarchy() []slip.Symbol {
 	if slowOn.Load() {
@@ -59,8 +134,75 @@ func (slowObj) Hierarchy() []slip.Symbol {
 }
 func (o slowObj) Eval(s *slip.Scope, depth int) slip.Object { return o }
 
+// altNil is the second object whose precedence list is (t), next to nil
+type altNil struct{}
+
+func (altNil) String() string                              { return "#<vnil2>" }
+func (altNil) Append(b []byte) []byte                      { return append(b, "#<vnil2>"...) }
+func (altNil) Simplify() any                               { return "#<vnil2>" }
+func (altNil) Equal(other slip.Object) bool                { _, ok := other.(altNil); return ok }
+func (altNil) Hierarchy() []slip.Symbol                    { return []slip.Symbol{slip.TrueSymbol} }
+func (o altNil) Eval(s *slip.Scope, depth int) slip.Object { return o }
+
+// gateObj is an argument that can park the routine that dispatches on it: when armed, its k-th
+// Hierarchy() call (the first is the cache key, the others come from the nested walk of
+// collectMethods - one per class of the argument before it) signals `entered` and waits for
+// `proceed`. The harness uses it to put a defmethod / remove-method of another routine at a known
+// point of a call's method lookup.
+type gateObj struct {
+	alt     bool
+	mu      sync.Mutex
+	at      int // 0: not armed
+	calls   int
+	entered chan struct{}
+	proceed chan struct{}
+}
+
+func (o *gateObj) String() string {
+	if o.alt {
+		return "#<vgate2>"
+	}
+	return "#<vgate>"
+}
+func (o *gateObj) Append(b []byte) []byte                    { return append(b, o.String()...) }
+func (o *gateObj) Simplify() any                             { return o.String() }
+func (o *gateObj) Equal(other slip.Object) bool              { return o == other }
+func (o *gateObj) Eval(s *slip.Scope, depth int) slip.Object { return o }
+func (o *gateObj) arm(at int) {
+	o.mu.Lock()
+	o.at, o.calls = at, 0
+	o.entered, o.proceed = make(chan struct{}), make(chan struct{})
+	o.mu.Unlock()
+}
+func (o *gateObj) disarm() {
+	o.mu.Lock()
+	o.at = 0
+	o.mu.Unlock()
+}
+func (o *gateObj) Hierarchy() []slip.Symbol {
+	o.mu.Lock()
+	park := false
+	if o.at > 0 {
+		o.calls++
+		park = o.calls == o.at
+	}
+	entered, proceed := o.entered, o.proceed
+	o.mu.Unlock()
+	if park {
+		close(entered)
+		select {
+		case <-proceed:
+		case <-time.After(10 * time.Second):
+		}
+	}
+	return []slip.Symbol{"vgate", "integer", "rational", "real", "number", "t"}
+}
+
+var gates = [2]*gateObj{{}, {alt: true}}
+
 type argObj struct {
-	expr string
+	expr string // the main object of the class
+	alt  string // the alternate object
 	cls  string
 	hier []string
 }
@@ -70,33 +212,142 @@ type opRec struct {
 	Qual  string   `json:"qual,omitempty"`
 	Key   []string `json:"key,omitempty"`
 	ID    int      `json:"id,omitempty"`
-	Next  bool     `json:"next,omitempty"`
-	Args  []string `json:"args,omitempty"` // classes of the call arguments
+	Nmp   bool     `json:"next_method_p,omitempty"`    // the body asks (next-method-p)
+	Calls [][]bool `json:"call_next_method,omitempty"` // one entry per call-next-method form: which arguments are exchanged
+	NoArg []bool   `json:"no_arg_form,omitempty"`      // the form is (call-next-method) without arguments
+	Args  []string `json:"args,omitempty"`             // classes of the call arguments
+	Var   []bool   `json:"variant,omitempty"`          // which object of each class
 	Lisp  string   `json:"lisp"`
-	Par   []opRec  `json:"concurrent_defs,omitempty"` // kind "par": defmethods issued while another routine keeps calling
-	Trace []int64  `json:"trace,omitempty"`
+	Par   []opRec  `json:"concurrent_defs,omitempty"` // kind "par": defmethods issued while another routine keeps calling; kind "gated": the one operation of the other routine
+	GateAt  int    `json:"gate_at,omitempty"`      // kind "gated": the call is parked at this Hierarchy() call of its last argument
+	Entered bool   `json:"parked,omitempty"`       // the call reached that point
+	BFirst  bool   `json:"other_returned_while_parked,omitempty"`
+	Trace []tev    `json:"trace,omitempty"`
 	Res   string   `json:"result,omitempty"`
 }
 
 var quals = []string{"", ":before", ":after", ":around"}
 var gq = map[string]string{"": "QPrimary", ":before": "QBefore", ":after": "QAfter", ":around": "QAround"}
 
+func gallinaTrace(tr []tev) []string {
+	var evs []string
+	for _, t := range tr {
+		switch {
+		case t.Nmp != 0:
+			evs = append(evs, "EvNmp "+common.GBool(t.Nmp == 2))
+		case t.ID >= 0:
+			var bs []string
+			for _, b := range t.Args {
+				bs = append(bs, common.GBool(b))
+			}
+			evs = append(evs, fmt.Sprintf("Ev %d %s", t.ID, common.GList(bs)))
+		default:
+			evs = append(evs, fmt.Sprintf("EvEnd %d", -t.ID))
+		}
+	}
+	return evs
+}
+
+// genBody draws the shape of a method body: :before / :after only trace; primaries and
+// :around methods may ask next-method-p and contain 0, 1 or 2 call-next-method forms, each with
+// the arguments received, with none written, or with some exchanged for the alternate object
+func genBody(ctx *common.Ctx, r *opRec, n int) {
+	if r.Qual == ":before" || r.Qual == ":after" {
+		return
+	}
+	var k int
+	x := ctx.Rng.Intn(100)
+	if r.Qual == ":around" {
+		switch {
+		case x < 12:
+			k = 0
+		case x < 78:
+			k = 1
+		default:
+			k = 2
+		}
+		r.Nmp = ctx.Rng.Chance(25)
+	} else {
+		switch {
+		case x < 65:
+			k = 0
+		case x < 93:
+			k = 1
+		default:
+			k = 2
+		}
+		r.Nmp = ctx.Rng.Chance(30)
+	}
+	for i := 0; i < k; i++ {
+		flips := make([]bool, n)
+		noArg := false
+		switch y := ctx.Rng.Intn(100); {
+		case y < 35:
+			noArg = true
+		case y < 65:
+		default:
+			for j := range flips {
+				flips[j] = ctx.Rng.Chance(60)
+			}
+		}
+		r.Calls = append(r.Calls, flips)
+		r.NoArg = append(r.NoArg, noArg)
+	}
+	ctx.Hist(fmt.Sprintf("body:%s:calls=%d", map[string]string{"": "primary", ":around": "around"}[r.Qual], k))
+}
+
+// Run drives the implementation in a child process (the same binary, VERIF_C10_INNER set) and
+// adopts what it wrote: the routines of the concurrent segments work on Go maps, and when a
+// change of the locking lets two of them meet there the Go runtime stops the whole process
+// ("fatal error: concurrent map read and map write"). The parent then reports that as a violation
+// and runs the child again without the free-running segments (the forced schedules remain).
 func Run(ctx *common.Ctx) {
+	if os.Getenv("VERIF_C10_INNER") == "" {
+		se, err := runInner(ctx, false)
+		var crash string
+		if err != nil {
+			crash = err.Error() + "\n" + se
+			if se2, err2 := runInner(ctx, true); err2 != nil {
+				panic("C10: the harness child failed twice: " + err2.Error() + "\n" + se2)
+			}
+		}
+		data, rerr := os.ReadFile(ctx.OutDir + "/meta.json")
+		if rerr == nil {
+			rerr = json.Unmarshal(data, &ctx.Meta)
+		}
+		if rerr != nil {
+			panic("C10: cannot read the child's meta.json: " + rerr.Error())
+		}
+		if crash != "" {
+			ctx.Violate("the process stopped while routines called a generic function and defined methods at the same time "+
+				"(a fatal error of the Go runtime is not a Lisp condition)",
+				"histories with concurrent segments: routine A repeats a call whose first argument has a slow Hierarchy() while routine B evaluates defmethod forms",
+				crash, "every operation answers")
+		}
+		return
+	}
 	defineVtr()
 	scope := slip.NewScope()
 	o := common.EvalIn(scope, `(defclass vc1 () ()) (defclass vc2 (vc1) ()) (defclass vc3 (vc2) ()) (defclass vc4 (vc3) ())
-(defvar *vi2* (make-instance 'vc2)) (defvar *vi4* (make-instance 'vc4))`)
+(defvar *vi2* (make-instance 'vc2)) (defvar *vi4* (make-instance 'vc4))
+(defvar *vi2b* (make-instance 'vc2)) (defvar *vi4b* (make-instance 'vc4))`)
 	if o.Err != "" {
 		panic("C10 setup: " + o.Err + " " + o.Msg)
 	}
 	var pool []argObj
 	scope.Let(slip.Symbol("*vslow*"), slowObj{})
-	for _, e := range []string{"1", "1/2", "1.5", `"s"`, "*vi2*", "*vi4*", "nil", "100000000000000000000", "*vslow*"} {
-		v := common.EvalIn(scope, e)
-		if v.Err != "" {
-			panic("C10 pool: " + e + ": " + v.Msg)
+	scope.Let(slip.Symbol("*vslow2*"), slowObj{alt: true})
+	scope.Let(slip.Symbol("*vnil2*"), altNil{})
+	scope.Let(slip.Symbol("*vgate*"), gates[0])
+	scope.Let(slip.Symbol("*vgate2*"), gates[1])
+	for _, e := range [][2]string{{"1", "2"}, {"1/2", "1/3"}, {"1.5", "2.5"}, {`"s"`, `"r"`}, {"*vi2*", "*vi2b*"}, {"*vi4*", "*vi4b*"},
+		{"nil", "*vnil2*"}, {"100000000000000000000", "100000000000000000001"}, {"*vgate*", "*vgate2*"}, {"*vslow*", "*vslow2*"}} {
+		v := common.EvalIn(scope, e[0])
+		w := common.EvalIn(scope, e[1])
+		if v.Err != "" || w.Err != "" {
+			panic("C10 pool: " + e[0] + ": " + v.Msg + w.Msg)
 		}
-		a := argObj{expr: e}
+		a := argObj{expr: e[0], alt: e[1]}
 		if v.Value == nil {
 			a.cls, a.hier = "t", []string{"t"}
 		} else {
@@ -105,6 +356,16 @@ func Run(ctx *common.Ctx) {
 			}
 			a.cls = a.hier[0]
 		}
+		// the alternate must have the same precedence list
+		var wh []string
+		for _, h := range w.Value.Hierarchy() {
+			wh = append(wh, string(h))
+		}
+		if strings.Join(wh, " ") != strings.Join(a.hier, " ") || objKey(v.Value) == objKey(w.Value) {
+			panic("C10 pool: " + e[1] + " is not an alternate of " + e[0])
+		}
+		alternates[objKey(v.Value)], alternates[objKey(w.Value)] = w.Value, v.Value
+		isAlt[objKey(w.Value)] = true
 		pool = append(pool, a)
 	}
 	// class table
@@ -118,7 +379,7 @@ func Run(ctx *common.Ctx) {
 	}
 	ct := common.GList(ctItems)
 	specs := []string{"t", "number", "real", "rational", "integer", "fixnum", "ratio", "float", "double-float",
-		"string", "vc1", "vc2", "vc3", "vc4", "bignum", "vslow"}
+		"string", "vc1", "vc2", "vc3", "vc4", "bignum", "vslow", "vgate"}
 
 	ncases := 400
 	if ctx.Thorough() {
@@ -138,23 +399,50 @@ func Run(ctx *common.Ctx) {
 		var gops, gobs []string
 		timedOut := false
 		defLisp := func(r *opRec) {
+			// every method has parameter names of its own: nothing may depend on the names
+			pn := make([]string, n)
 			var ll []string
 			for j, c := range r.Key {
-				ll = append(ll, fmt.Sprintf("(%s %s)", params[j], c))
+				pn[j] = fmt.Sprintf("%s%d", params[j], r.ID)
+				ll = append(ll, fmt.Sprintf("(%s %s)", pn[j], c))
 			}
-			var body string
-			cn := fmt.Sprintf("(call-next-method %s)", strings.Join(params, " "))
-			switch {
-			case r.Qual == ":around" && r.Next:
-				body = fmt.Sprintf("(vtr %d) (let ((r %s)) (vtr %d) r)", r.ID, cn, -r.ID)
-			case r.Qual == ":around":
-				body = fmt.Sprintf("(vtr %d) (vtr %d) %d", r.ID, -r.ID, r.ID)
-			default:
-				body = fmt.Sprintf("(vtr %d) %d", r.ID, r.ID)
+			var body strings.Builder
+			fmt.Fprintf(&body, "(vtr %d %s)", r.ID, strings.Join(pn, " "))
+			if r.Nmp {
+				body.WriteString(" (vnp (next-method-p))")
 			}
-			r.Lisp = fmt.Sprintf("(defmethod %s %s (%s) %s)", g, r.Qual, strings.Join(ll, " "), body)
-			gops = append(gops, fmt.Sprintf("OpDef %s %s {| b_id := %d; b_next := %s |}", gq[r.Qual],
-				common.GStrs(r.Key), r.ID, common.GBool(r.Next)))
+			if r.Qual == ":around" || len(r.Calls) > 0 {
+				fmt.Fprintf(&body, " (let ((r %d))", r.ID)
+				for ci, flips := range r.Calls {
+					if r.NoArg[ci] {
+						body.WriteString(" (setq r (call-next-method))")
+						continue
+					}
+					var as []string
+					for j := range pn {
+						if flips[j] {
+							as = append(as, "(valt "+pn[j]+")")
+						} else {
+							as = append(as, pn[j])
+						}
+					}
+					fmt.Fprintf(&body, " (setq r (call-next-method %s))", strings.Join(as, " "))
+				}
+				fmt.Fprintf(&body, " (vtr %d) r)", -r.ID)
+			} else {
+				fmt.Fprintf(&body, " %d", r.ID)
+			}
+			r.Lisp = fmt.Sprintf("(defmethod %s %s (%s) %s)", g, r.Qual, strings.Join(ll, " "), body.String())
+			var calls []string
+			for _, flips := range r.Calls {
+				var bs []string
+				for _, f := range flips {
+					bs = append(bs, common.GBool(f))
+				}
+				calls = append(calls, common.GList(bs))
+			}
+			gops = append(gops, fmt.Sprintf("OpDef %s %s {| b_id := %d; b_nmp := %s; b_calls := %s |}", gq[r.Qual],
+				common.GStrs(r.Key), r.ID, common.GBool(r.Nmp), common.GList(calls)))
 			gobs = append(gobs, "None")
 		}
 		for i := range recs {
@@ -197,6 +485,109 @@ func Run(ctx *common.Ctx) {
 				slowOn.Store(false)
 				r.Lisp = "concurrently: routine A repeats " + callSrc + " while routine B evaluates the concurrent_defs"
 				continue
+			case "gated":
+				// routine A calls with a gate object as last argument and is parked in the middle of
+				// its method lookup; routine B then issues one defmethod / remove-method. On a correct
+				// tree B waits for the mutex (we give it 150 ms, then let A go on): order A, B. When B
+				// returns while A is parked the order is B, A. Either way the calls that follow must
+				// see B's change: the model gets the operations in that order.
+				idx := len(gops)
+				b := &r.Par[0]
+				if b.Kind == "def" {
+					defLisp(b)
+				} else {
+					ql := "nil"
+					if b.Qual != "" {
+						ql = "'(" + b.Qual + ")"
+					}
+					b.Lisp = fmt.Sprintf("(let ((m (find-method '%s %s '(%s)))) (if m (remove-method '%s m) nil))", g, ql,
+						strings.Join(b.Key, " "), g)
+					gops = append(gops, fmt.Sprintf("OpRemove %s %s", gq[b.Qual], common.GStrs(b.Key)))
+					gobs = append(gobs, "None")
+				}
+				var exprs, vs []string
+				for j, c := range r.Args {
+					for _, a := range pool {
+						if a.cls == c {
+							if r.Var[j] {
+								exprs = append(exprs, a.alt)
+							} else {
+								exprs = append(exprs, a.expr)
+							}
+							break
+						}
+					}
+					vs = append(vs, common.GBool(r.Var[j]))
+				}
+				r.Lisp = fmt.Sprintf("(%s %s)", g, strings.Join(exprs, " "))
+				gate := gates[0]
+				if r.Var[len(r.Var)-1] {
+					gate = gates[1]
+				}
+				gate.arm(r.GateAt)
+				sa, sb := scope.NewScope(), scope.NewScope()
+				k := &sink{}
+				sa.Let(slip.Symbol(sinkVar), k)
+				callDone := make(chan common.Outcome, 1)
+				bDone := make(chan common.Outcome, 1)
+				go func() { callDone <- common.EvalIn(sa, r.Lisp) }()
+				var out, bout common.Outcome
+				haveCall := false
+				select {
+				case <-gate.entered:
+					r.Entered = true
+				case out = <-callDone:
+					haveCall = true
+				case <-time.After(5 * time.Second):
+				}
+				go func() { bDone <- common.EvalIn(sb, b.Lisp) }()
+				if r.Entered {
+					select {
+					case bout = <-bDone:
+						r.BFirst = true
+					case <-time.After(150 * time.Millisecond):
+					}
+					close(gate.proceed)
+				}
+				if !haveCall {
+					select {
+					case out = <-callDone:
+					case <-time.After(5 * time.Second):
+						out = common.Outcome{Err: "timeout"}
+						timedOut = true
+					}
+				}
+				if !r.BFirst {
+					select {
+					case bout = <-bDone:
+					case <-time.After(5 * time.Second):
+						bout = common.Outcome{Err: "timeout"}
+						timedOut = true
+					}
+				}
+				gate.disarm()
+				if bout.Err != "" {
+					b.Res = "!" + bout.Err + ": " + bout.Msg
+					gobs[idx] = "(Some ([], ROther))"
+				}
+				r.Trace = append([]tev{}, k.tr...)
+				res, shown := resultOf(out)
+				r.Res = shown
+				gops = append(gops, "OpCall "+common.GStrs(r.Args)+" "+common.GList(vs))
+				gobs = append(gobs, fmt.Sprintf("(Some (%s, %s))", common.GList(gallinaTrace(r.Trace)), res))
+				if !r.BFirst {
+					gops[idx], gops[idx+1] = gops[idx+1], gops[idx]
+					gobs[idx], gobs[idx+1] = gobs[idx+1], gobs[idx]
+				}
+				switch {
+				case r.BFirst:
+					ctx.Hist("gated:other-routine-returned-while-the-call-was-parked")
+				case r.Entered:
+					ctx.Hist("gated:other-routine-waited-for-the-call")
+				default:
+					ctx.Hist("gated:call-not-parked")
+				}
+				continue
 			case "def":
 				defLisp(r)
 			case "remove":
@@ -209,17 +600,22 @@ func Run(ctx *common.Ctx) {
 				gops = append(gops, fmt.Sprintf("OpRemove %s %s", gq[r.Qual], common.GStrs(r.Key)))
 				gobs = append(gobs, "None")
 			case "call":
-				var exprs []string
-				for _, c := range r.Args {
+				var exprs, vs []string
+				for j, c := range r.Args {
 					for _, a := range pool {
 						if a.cls == c {
-							exprs = append(exprs, a.expr)
+							if j < len(r.Var) && r.Var[j] {
+								exprs = append(exprs, a.alt)
+							} else {
+								exprs = append(exprs, a.expr)
+							}
 							break
 						}
 					}
+					vs = append(vs, common.GBool(j < len(r.Var) && r.Var[j]))
 				}
 				r.Lisp = fmt.Sprintf("(%s %s)", g, strings.Join(exprs, " "))
-				gops = append(gops, "OpCall "+common.GStrs(r.Args))
+				gops = append(gops, "OpCall "+common.GStrs(r.Args)+" "+common.GList(vs))
 			}
 			trace = trace[:0]
 			var out common.Outcome
@@ -239,15 +635,8 @@ func Run(ctx *common.Ctx) {
 				}
 				continue
 			}
-			r.Trace = append([]int64{}, trace...)
-			var evs []string
-			for _, t := range r.Trace {
-				if t >= 0 {
-					evs = append(evs, fmt.Sprintf("Ev %d", t))
-				} else {
-					evs = append(evs, fmt.Sprintf("EvEnd %d", -t))
-				}
-			}
+			r.Trace = append([]tev{}, trace...)
+			evs := gallinaTrace(r.Trace)
 			var res string
 			switch {
 			case out.Err == "":
@@ -292,6 +681,33 @@ func Run(ctx *common.Ctx) {
 		}
 		return k
 	}
+	runAndStore := func(n int, recs []opRec) {
+		term, recs, to := runHistory(n, recs)
+		if to {
+			ctx.Hist("timeout-history")
+		}
+		ctx.Meta.Evaluations++
+		sig := term
+		if i := strings.Index(sig, "k_ops"); i >= 0 {
+			sig = sig[i:]
+		}
+		calls := 0
+		for _, r := range recs {
+			if r.Kind == "call" || r.Kind == "gated" {
+				calls++
+			}
+			ctx.Hist("op:" + r.Kind)
+		}
+		if !distinct[sig] && calls > 0 {
+			distinct[sig] = true
+		}
+		terms = append(terms, term)
+		descs = append(descs, map[string]any{"generic_arity": n, "ops": recs})
+		if len(terms)%97 == 1 || (len(recs) > 0 && len(terms)%5 == 0 && strings.Contains(term, "vgate") && len(ctx.Meta.Samples) < 8) {
+			ctx.Sample(map[string]any{"generic_arity": n, "ops": recs})
+		}
+	}
+	safe := os.Getenv("VERIF_C10_SAFE") != ""
 	for len(terms) < ncases {
 		n := 1 + ctx.Rng.Intn(2)
 		L := 3 + ctx.Rng.Intn(12)
@@ -306,7 +722,18 @@ func Run(ctx *common.Ctx) {
 		var recs []opRec
 		var defined [][2]string // (qual, key joined)
 		id := 0
-		concurrent := ctx.Rng.Chance(30)
+		concurrent := ctx.Rng.Chance(30) && !safe
+		// the mix of qualifiers of a history: even, mostly :around methods (so that three and more
+		// are applicable to one call), or mostly primaries (chains of call-next-method)
+		mix := [3]int{40, 62, 84}
+		switch x := ctx.Rng.Intn(100); {
+		case x < 30:
+			mix = [3]int{25, 32, 40}
+			ctx.Hist("history:around-heavy")
+		case x < 50:
+			mix = [3]int{75, 82, 90}
+			ctx.Hist("history:primary-heavy")
+		}
 		if concurrent {
 			// the first focus tuple starts with the slow object (last pool entry) and fixnums
 			focus[0][0] = pool[len(pool)-1]
@@ -355,17 +782,19 @@ func Run(ctx *common.Ctx) {
 				id++
 				q := ""
 				switch x := ctx.Rng.Intn(100); {
-				case x < 40:
+				case x < mix[0]:
 					q = ""
-				case x < 62:
+				case x < mix[1]:
 					q = ":before"
-				case x < 84:
+				case x < mix[2]:
 					q = ":after"
 				default:
 					q = ":around"
 				}
 				k := genKey(n)
-				recs = append(recs, opRec{Kind: "def", Qual: q, Key: k, ID: id, Next: q == ":around" && ctx.Rng.Chance(85)})
+				rec := opRec{Kind: "def", Qual: q, Key: k, ID: id}
+				genBody(ctx, &rec, n)
+				recs = append(recs, rec)
 				defined = append(defined, [2]string{q, strings.Join(k, "|")})
 			case p < 62 && len(defined) > 0:
 				var q string
@@ -387,44 +816,125 @@ func Run(ctx *common.Ctx) {
 						args[i] = common.Pick(ctx.Rng, pool).cls
 					}
 				}
-				recs = append(recs, opRec{Kind: "call", Args: args})
+				vr := make([]bool, n)
+				for i := range vr {
+					vr[i] = ctx.Rng.Chance(30)
+				}
+				recs = append(recs, opRec{Kind: "call", Args: args, Var: vr})
 				if ctx.Rng.Chance(30) { // immediate repeat: a cached call
-					recs = append(recs, opRec{Kind: "call", Args: args})
+					recs = append(recs, opRec{Kind: "call", Args: args, Var: vr})
 				}
 			}
 		}
-		term, recs, to := runHistory(n, recs)
-		if to {
-			ctx.Hist("timeout-history")
-		}
-		ctx.Meta.Evaluations++
-		sig := term
-		if i := strings.Index(sig, "k_ops"); i >= 0 {
-			sig = sig[i:]
-		}
-		calls := 0
-		for _, r := range recs {
-			if r.Kind == "call" {
-				calls++
+		runAndStore(n, recs)
+	}
+	// histories with a forced schedule: a call parked in the middle of its method lookup while
+	// another routine defines or removes a method the lookup has already passed. The calls that
+	// follow must see the change (a method list computed before it must not be in the cache).
+	ngated := 12
+	if ctx.Thorough() {
+		ngated = 120
+	}
+	gatePool := pool[len(pool)-2]
+	for h := 0; h < ngated; h++ {
+		var first argObj
+		for {
+			first = common.Pick(ctx.Rng, pool)
+			if len(first.hier) >= 2 && first.cls != "vgate" && first.cls != "vslow" {
+				break
 			}
-			ctx.Hist("op:" + r.Kind)
 		}
-		if !distinct[sig] && calls > 0 {
-			distinct[sig] = true
+		id := 0
+		var recs []opRec
+		var defined [][2]string
+		randKey := func(maxFirst int) []string {
+			return []string{first.hier[ctx.Rng.Intn(maxFirst)], common.Pick(ctx.Rng, gatePool.hier)}
 		}
-		terms = append(terms, term)
-		descs = append(descs, map[string]any{"generic_arity": n, "ops": recs})
-		if len(terms)%97 == 1 {
-			ctx.Sample(map[string]any{"generic_arity": n, "ops": recs})
+		randDef := func(maxFirst int) opRec {
+			id++
+			q := common.Pick(ctx.Rng, []string{"", "", ":before", ":after", ":around"})
+			rec := opRec{Kind: "def", Qual: q, Key: randKey(maxFirst), ID: id}
+			genBody(ctx, &rec, 2)
+			defined = append(defined, [2]string{q, strings.Join(rec.Key, "|")})
+			return rec
 		}
+		if ctx.Rng.Chance(85) {
+			id++
+			recs = append(recs, opRec{Kind: "def", Qual: "", Key: []string{"t", "t"}, ID: id})
+			defined = append(defined, [2]string{"", "t|t"})
+		}
+		for i := 0; i < ctx.Rng.Intn(4); i++ {
+			recs = append(recs, randDef(len(first.hier)))
+		}
+		args := []string{first.cls, "vgate"}
+		for seg := 0; seg < 1+ctx.Rng.Intn(2); seg++ {
+			// a definition right before: the cache is empty, the call has to walk
+			recs = append(recs, randDef(len(first.hier)))
+			vr := []bool{ctx.Rng.Chance(30), ctx.Rng.Chance(30)}
+			// parked at Hierarchy() call number at of the gate: the first at-2 classes of the first
+			// argument have been looked up
+			walked := 1 + ctx.Rng.Intn(min(len(first.hier)-1, 5))
+			var b opRec
+			if ctx.Rng.Chance(35) {
+				// remove a method the walk has passed, if there is one
+				var cand [][2]string
+				for _, d := range defined {
+					k := strings.Split(d[1], "|")
+					for w := 0; w < walked; w++ {
+						if first.hier[w] == k[0] {
+							cand = append(cand, d)
+						}
+					}
+				}
+				if len(cand) > 0 {
+					d := common.Pick(ctx.Rng, cand)
+					b = opRec{Kind: "remove", Qual: d[0], Key: strings.Split(d[1], "|")}
+				}
+			}
+			if b.Kind == "" {
+				b = randDef(walked)
+			}
+			recs = append(recs, opRec{Kind: "gated", Args: args, Var: vr, GateAt: walked + 2, Par: []opRec{b}})
+			recs = append(recs, opRec{Kind: "call", Args: args, Var: vr})
+			if ctx.Rng.Chance(50) {
+				recs = append(recs, opRec{Kind: "call", Args: args, Var: []bool{!vr[0], vr[1]}})
+			}
+		}
+		ctx.Hist("history:gated")
+		runAndStore(2, recs)
 	}
 	ctx.Meta.DistinctNontrivial = len(distinct)
-	ctx.Meta.Rule = "random histories (3..14 ops) of defmethod (4 qualifiers x specializer tuples over 15 classes)/remove-method/call " +
-		"on fresh 1- and 2-argument generic functions with arguments from 8 objects (numeric tower, string, two CLOS chain instances, nil); " +
+	ctx.Meta.Rule = "random histories (3..14 ops) of defmethod (4 qualifiers x specializer tuples over 16 classes; primary and :around bodies " +
+		"with optional next-method-p and 0..2 call-next-method forms: arguments as received, none written, or exchanged for the second " +
+		"object of the class; every method has parameter names of its own)/remove-method/call on fresh 1- and 2-argument generic functions " +
+		"with arguments from 9 classes x 2 objects (numeric tower, string, two CLOS chain instances, nil, a slow-hierarchy object); " +
 		"a case is distinct by its op list + observed outputs and non-trivial when it contains at least one call"
 	header := "From C10 Require Import Model Spec Proofs Corr.\nOpen Scope N_scope.\nDefinition ct : ctable := " + ct + ".\n"
 	footer := "Definition res := Eval vm_compute in check_all cases.\nPrint res.\n" +
 		"Definition gcount := Eval vm_compute in guard_count cases.\nPrint gcount.\n"
 	ctx.WriteShards("cases", header, "case", footer, terms, descs, 16)
+	runConcurrent(ctx)
 	ctx.ReplayKnownLisp()
+}
+
+func runInner(ctx *common.Ctx, safe bool) (string, error) {
+	exe, err := os.Executable()
+	if err != nil {
+		return "", err
+	}
+	_ = os.Remove(ctx.OutDir + "/meta.json")
+	cmd := exec.Command(exe, os.Args[1:]...)
+	cmd.Env = append(os.Environ(), "VERIF_C10_INNER=1")
+	if safe {
+		cmd.Env = append(cmd.Env, "VERIF_C10_SAFE=1")
+	}
+	var stderr strings.Builder
+	cmd.Stderr = &stderr
+	cmd.Stdout = os.Stdout
+	err = cmd.Run()
+	se := stderr.String()
+	if len(se) > 2500 {
+		se = se[:2500]
+	}
+	return se, err
 }
